@@ -165,11 +165,11 @@ PROPS['C19'] = {
             'non-numeric) parsed by TOTP::from_str or Entry::get_otp, then value_at at 10..13 instants incl. 0, window edges, 2^31, 2^32, u64::MAX; '
             'every case counts as non-trivial; distinct by hash of (uri, times)',
     'partial': ['C19_nopanic_full is false on the unchanged code (digits >= 20 parses, value_at overflows 10^digits: F14); C19_nopanic_partial for digits < 20',
-                'conformance of the code value with RFC 6238 is by transcription + the appendix-B vectors (a test), the url crate is modelled on the otpauth grammar only'],
+                'the SHA-1/256/512 and HMAC functions themselves are parameters of the theorems (conformance of the executable ones with the RFCs is by the appendix-B vectors, a test); the url crate is modelled on the otpauth grammar only'],
     'assumptions': ['url::Url::parse splits scheme / path / decoded query pairs as the harness composed them (checked: real parse result is compared field by field)'],
     'level_text': 'Kernel-checked for every HMAC function, secret, time and parameter set: code has exactly `digits` decimal digits, 31-bit truncation in bounds, '
                   'validity in [1, period], constant within a time window, parsed URIs never carry period 0, scheme/missing-secret/number/algorithm errors, '
-                  'later duplicate wins by fold; base32 (RFC 4648 with padding) decodes every encoded byte string back to itself (b32_roundtrip, C19_secret_roundtrip). The Lean model with its own SHA-1/256/512+HMAC is run against TOTP::from_str/value_at/get_secret on generated URIs.',
+                  'later duplicate wins by fold; the code read as a decimal number is Truncate(HMAC(secret, time step)) mod 10^digits (C19_code_value), the HMAC message is the time step big endian in 8 bytes and differs between windows (counterBytes_value, counterBytes_injective, C19_windows_hash_distinct); base32 (RFC 4648 with padding) decodes every encoded byte string back to itself (b32_roundtrip, C19_secret_roundtrip). The Lean model with its own SHA-1/256/512+HMAC is run against TOTP::from_str/value_at/get_secret on generated URIs.',
 }
 
 
